@@ -2,10 +2,10 @@
 from conc_engine import *
 
 MODULE = "Feox.Props.C07"
-THEOREMS = ['Feox.C07.linearization_points', 'Feox.C07.state_changes_only_at_commits', 'Feox.C07.real_time_order',
+THEOREMS = ['Feox.C07.linearizable', 'Feox.C07.linearization_points', 'Feox.C07.state_changes_only_at_commits', 'Feox.C07.real_time_order',
             'Feox.C07.refusal_is_permitted', 'Feox.C07.never_lands_on_newer', 'Feox.C07.incr_adds',
             'Feox.C07.if_absent_single_winner', 'Feox.C07.cas_success_changes_generation',
-            'Feox.Conc.step_sim', 'Feox.Conc.reachable_inv']
+            'Feox.Conc.step_sim', 'Feox.Conc.reachable_inv', 'Feox.Conc.replay_linUpTo', 'Feox.Conc.linUpTo_perm']
 
 ASSUME = [
     "guard atomicity: everything a call does while it holds the bucket entry of its key (hash_table.entry) is one atomic step with respect to other calls on that key (scc::HashMap entry locking); atomics are sequentially consistent at the granularity of the modelled accesses",
